@@ -284,9 +284,27 @@ func c16Specs(tier string) []*h.SeqSpec {
 					if err != nil {
 						continue
 					}
-					r := w.Do(h.Req{Method: "GET", Path: "/v2/" + pr.y + "/referrers/" + f.Items["I1"].Dig, Query: nu.RawQuery})
-					var idx types.Index
-					if r.Status == 200 && json.Unmarshal(r.Body, &idx) == nil {
+					probes := []h.Req{{Method: "GET", Path: "/v2/" + pr.y + "/referrers/" + f.Items["I1"].Dig, Query: nu.RawQuery}}
+					// the same parts redistributed over the request: when x is y/<last>, ask y for "subject" <last> with the real
+					// subject in the cache parameter and the response digest inside the filter (and the other way round): however
+					// the page cache composes its key, the parts of one request must not read as those of another
+					if strings.HasPrefix(pr.x, pr.y+"/") {
+						last := strings.TrimPrefix(pr.x, pr.y+"/")
+						cacheDig := nu.Query().Get("cache")
+						for _, sep := range []string{"/", "|", ":", ",", " "} {
+							q := url.Values{}
+							q.Set("cache", f.Items["I1"].Dig)
+							q.Set("page", nu.Query().Get("page"))
+							q.Set("artifactType", cacheDig+sep)
+							probes = append(probes, h.Req{Method: "GET", Path: "/v2/" + pr.y + "/referrers/" + last, Query: q.Encode()})
+						}
+					}
+					for _, rq := range probes {
+						r := w.Do(rq)
+						var idx types.Index
+						if r.Status != 200 || json.Unmarshal(r.Body, &idx) != nil {
+							continue
+						}
 						my := regM(w).Repo(pr.y)
 						for _, dsc := range idx.Manifests {
 							it := f.ByDigest(dsc.Digest.String())
@@ -294,7 +312,7 @@ func c16Specs(tier string) []*h.SeqSpec {
 								continue
 							}
 							if _, ok := my.Mans[it.Name]; !ok {
-								vs = append(vs, h.V("content-only-where-pushed", "referrers-page-of-other-repository", "referrers of %s?%s lists %s, which was only pushed to %s", pr.y, nu.RawQuery, it.Name, pr.x))
+								vs = append(vs, h.V("content-only-where-pushed", "referrers-page-of-other-repository", "GET %s?%s lists %s, which was only pushed to %s", rq.Path, rq.Query, it.Name, pr.x))
 							}
 						}
 					}
